@@ -44,6 +44,8 @@ def base_pool():
          [{'a': 1}], [d.date(2024, 1, 1)],
          {}, {'a': 1}, {'a': 1.0}, {'a': 2}, {'b': 1}, {'b': 1, 'a': 1}, {'a': 1, 'b': 1}, {'a': [1]}, {'a': {'b': {'c': 1}}}, {'a': None},
          {'': 0}, {'a': 1, 'b': 2, 'c': 3}, {'a': 'x'}, {'A': 1},
+         # the same keys inserted in different orders, values differing in opposite directions
+         {'x': 1, 'y': 2}, {'y': 1, 'x': 2}, {'y': 2, 'x': 1}, {'x': 2, 'y': 1}, {'x': 1, 'y': 2, 'z': 0}, {'z': 0, 'y': 1, 'x': 2},
          len, abs, re.compile('a'), re.compile('b+')]
     return p
 
